@@ -355,7 +355,8 @@ Proof.
   unfold s1', s1.
   repeat rewrite ?bal_add_bal, ?bal_transfer, ?bal_set_nonce, ?bal_sub_bal.
   repeat match goal with |- context [N.eqb ?x ?y] =>
-    destruct (N.eqb_spec x y); try congruence end; subst; try lia.
+    destruct (N.eqb_spec x y); try congruence end; subst;
+  repeat match goal with H : e_coinbase e = _ |- _ => rewrite H in *; clear H end; try lia.
 Qed.
 
 (** *** why a transaction is rejected *)
@@ -375,20 +376,21 @@ Lemma rejected_reason e s pool m er sx px :
 Proof.
   unfold apply_transaction. fold (creation m).
   destruct (m_sigok m) eqn:Hsig; cbn [negb]; [|intros H; inversion H; reflexivity].
-  destruct (nonce s (m_from m) <? m_nonce m) eqn:Hn1; [intros H; inversion H; now apply Z.ltb_lt|].
-  destruct (m_nonce m <? nonce s (m_from m)) eqn:Hn2; [intros H; inversion H; now apply Z.ltb_lt|].
-  destruct (bal s (m_from m) <? m_gas m * m_price m) eqn:Hf; [intros H; inversion H; now apply Z.ltb_lt|].
-  destruct (pool <? m_gas m) eqn:Hp; [intros H; inversion H; now apply Z.ltb_lt|].
+  destruct (nonce s (m_from m) <? m_nonce m) eqn:Hn1; [intros H; inversion H; subst; cbn; apply Z.ltb_lt; assumption|].
+  destruct (m_nonce m <? nonce s (m_from m)) eqn:Hn2; [intros H; inversion H; subst; cbn; apply Z.ltb_lt; assumption|].
+  destruct (bal s (m_from m) <? m_gas m * m_price m) eqn:Hf; [intros H; inversion H; subst; cbn; apply Z.ltb_lt; assumption|].
+  destruct (pool <? m_gas m) eqn:Hp; [intros H; inversion H; subst; cbn; apply Z.ltb_lt; assumption|].
   destruct (intrinsic_gas wrapu64 (m_data m) (creation m) (negb (e_galaxias e))) as [ig|] eqn:Hig;
     [|intros H; inversion H; reflexivity].
   destruct (wrapu64 (0 + m_gas m) <? ig) eqn:Hlow;
-    [intros H; inversion H; exists ig; split; [reflexivity|now apply Z.ltb_lt]|].
+    [intros H; inversion H; subst; cbn; exists ig; split; [reflexivity|apply Z.ltb_lt; assumption]|].
   destruct ((0 <? m_value m) && negb (can_transfer _ (m_from m) (m_value m))) eqn:Hv.
   - intros H; inversion H. apply andb_true_iff in Hv. destruct Hv as [_ Hv].
     apply negb_true_iff in Hv. unfold can_transfer in Hv. apply negb_false_iff, Z.ltb_lt in Hv.
     rewrite bal_sub_bal, N.eqb_refl in Hv. exact Hv.
   - destruct (vm_phase _ _ _ _ _ _) as [[[s2 g2] ve] bu].
-    destruct (_ <? _); [discriminate|]. destruct (finalise _). discriminate.
+    match goal with |- (if ?c then Panicked else _) = _ -> _ => destruct c; [discriminate|] end.
+    destruct (finalise _). discriminate.
 Qed.
 
 (* ------------------------------------------------------------------ *)
@@ -406,9 +408,12 @@ Lemma rejected_neutral W e b txs1 bad txs2 :
        (b_pool (commit_txs W run ca e b txs1)) bad = Rejected er sx px) ->
   commit_txs W run ca e b (txs1 ++ bad :: txs2) = commit_txs W run ca e b (txs1 ++ txs2).
 Proof.
-  intros (er & sx & px & H). rewrite !commit_txs_app. f_equal.
-  change (commit_txs W run ca e ?x (bad :: txs2)) with (commit_txs W run ca e (commit_step W run ca e x bad) txs2).
-  f_equal. unfold commit_step. rewrite H. destruct (b_panic _); reflexivity.
+  intros (er & sx & px & H). rewrite !commit_txs_app.
+  set (b1 := commit_txs W run ca e b txs1) in *.
+  change (commit_txs W run ca e b1 (bad :: txs2))
+    with (commit_txs W run ca e (commit_step W run ca e b1 bad) txs2).
+  replace (commit_step W run ca e b1 bad) with b1; [reflexivity|].
+  unfold commit_step. rewrite H. destruct (b_panic b1); reflexivity.
 Qed.
 
 (** block invariant: no panic, pool + gas used = block gas limit, the state is at a transaction
